@@ -61,16 +61,17 @@ def markComplete (s : State τ) (n i : Nat) : Except PyErr (State τ) := do
   let book' ← PyList.remove book i
   .ok { s with node2pending := s.node2pending.set n book' }
 
-def removeNode (s : State τ) (n : Nat) : Except PyErr (State τ × Option τ) := do
-  let (book, n2p) ← s.node2pending.pop n
-  let s1 := { s with node2pending := n2p }
-  match book with
-  | [] => .ok (s1, none)
-  | i :: rest => do
-    let col ← s1.node2collection.get n
-    let item ← match col[i]? with | some t => pure t | none => .error .indexError
-    let s2 := if rest.isEmpty then s1 else { s1 with removed2pending := s1.removed2pending.set n rest }
-    .ok (s2, some item)
+def removeNode (s : State τ) (n : Nat) : Except PyErr (State τ × Option τ) :=
+  (s.node2pending.pop n).bind fun p =>
+    let s1 := { s with node2pending := p.2 }
+    match p.1 with
+    | [] => .ok (s1, none)
+    | i :: rest =>
+      (s1.node2collection.get n).bind fun col =>
+        match col[i]? with
+        | none => .error .indexError
+        | some item =>
+          .ok (if rest.isEmpty then s1 else { s1 with removed2pending := s1.removed2pending.set n rest }, some item)
 
 def scheduleLoop (s : State τ) (e : Env) : List Nat → Except PyErr (State τ × Env)
   | [] => .ok (s, e)
